@@ -66,7 +66,7 @@ type Profile struct {
 // DefaultMechs is the broad mechanism mix.
 var DefaultMechs = map[string]int{
 	"same": 30, "diff": 22, "case": 8, "getter": 10, "nested": 10, "skip": 6, "map": 10, "conv": 10,
-	"literal": 4, "none": 5, "slice": 10, "unexported": 4, "embedded": 3, "ptrnested": 4, "blank": 2, "twin": 3,
+	"literal": 4, "none": 5, "slice": 10, "unexported": 4, "embedded": 3, "ptrnested": 4, "blank": 2, "twin": 3, "embgetter": 2,
 }
 
 // Broad is the profile used by C01/C02/C04/C05.
@@ -402,7 +402,7 @@ func (b *Builder) genField(ctx pairCtx, src, dst *SDecl, name, mech string) {
 	case "map":
 		b.genMap(ctx, src, dst, name)
 	case "conv":
-		if b.chance(0.12) && src.Pkg == "" && dst.Pkg == "" {
+		if b.chance(0.15) && src.Pkg == "" && dst.Pkg == "" {
 			b.genConvGenerated(ctx, src, dst, name)
 		} else {
 			b.genConv(ctx, src, dst, name)
@@ -462,6 +462,29 @@ func (b *Builder) genField(ctx pairCtx, src, dst *SDecl, name, mech string) {
 		}
 		b.addProbe(ctx, name, "twin", t, t, kind+"/"+target)
 		b.addProbe(ctx, low, "twin", t, t, kind+"/"+target)
+	case "embgetter":
+		// a LOCAL source struct that embeds a struct of another package which has an unexported
+		// getter-shaped method (secret) and an exported one (Hid); destination fields named like them
+		if src.Pkg != "" || dst.Pkg != "" {
+			b.genField(ctx, src, dst, name, "same")
+			return
+		}
+		for _, f := range src.Fields {
+			if f.Name == "Inner" {
+				b.genField(ctx, src, dst, name, "same")
+				return
+			}
+		}
+		for _, f := range dst.Fields {
+			if f.Name == "secret" || f.Name == "Hid" {
+				b.genField(ctx, src, dst, name, "same")
+				return
+			}
+		}
+		src.Fields = append(src.Fields, FDecl{Name: "Inner", Type: "ext.Inner", Embedded: true})
+		dst.Fields = append(dst.Fields, FDecl{Name: "secret", Type: "int"}, FDecl{Name: "Hid", Type: "int"})
+		b.addProbe(ctx, "secret", "embgetter", "int", "", "unexported-promoted")
+		b.addProbe(ctx, "Hid", "embgetter", "int", "", "exported-promoted")
 	case "blank":
 		// blank padding fields: can be neither read nor assigned, the fields after them must still be handled
 		t := []string{"int32", "[0]func()", "struct{}", "string"}[b.R.Intn(4)]
@@ -476,6 +499,11 @@ func (b *Builder) genField(ctx pairCtx, src, dst *SDecl, name, mech string) {
 		un := lowerFirst(name)
 		dst.Fields = append(dst.Fields, FDecl{Name: un, Type: t.Expr})
 		src.Fields = append(src.Fields, FDecl{Name: un, Type: t.Expr})
+		if dst.Pkg != "" && b.chance(0.5) {
+			// a :skip pattern that matches the UNREACHABLE member: it must still never be mentioned
+			pat := []string{joinPath(ctx.dstPath, un), "/" + un + "$/", "/(?i)" + un + "/", strings.ToUpper(joinPath(ctx.dstPath, un))}[b.R.Intn(4)]
+			m.Notations = append(m.Notations, Notation{Name: "skip", Args: []string{pat}})
+		}
 		b.addProbe(ctx, un, mech, t.Expr, t.Expr, fmt.Sprintf("dstpkg=%q srcpkg=%q", dst.Pkg, src.Pkg))
 	default:
 		panic("unknown mech " + mech)
@@ -526,7 +554,7 @@ func (b *Builder) otherPkg(p string) string {
 }
 
 // scalar types convenient for map/conv probes: (type, unique-value friendly)
-var simpleTypes = []string{"int", "string", "int64", "bool", "float64", "uint8"}
+var simpleTypes = []string{"int", "string", "int64", "bool", "float64", "uint8", "error", "interface{}"}
 
 func (b *Builder) genMap(ctx pairCtx, src, dst *SDecl, name string) {
 	m := ctx.m
@@ -863,6 +891,23 @@ func (b *Builder) genHook(m *Method, kind string, srcT, dstT string) {
 	fname := fmt.Sprintf("%s%d", kind[:3], b.next())
 	dp := strings.TrimPrefix(dstT, "*")
 	sp := strings.TrimPrefix(srcT, "*")
+	// a hook that lives in the imported package m (possible when both operand types do)
+	inM := strings.HasPrefix(dp, "m.") && strings.HasPrefix(sp, "m.") && b.chance(0.6)
+	if inM {
+		for _, e := range m.Extras {
+			// scenario-local types are not visible in m: only basic and ext types qualify
+			t := strings.TrimPrefix(e.Type, "*")
+			switch {
+			case t == "int" || t == "string" || t == "bool" || t == "float64" || t == "int64" || t == "uint8":
+			case strings.HasPrefix(t, "ext."):
+			default:
+				inM = false
+			}
+		}
+	}
+	if inM {
+		fname = strings.ToUpper(fname[:1]) + fname[1:]
+	}
 	dstPtr := b.chance(0.7)
 	srcPtr := b.chance(0.5)
 	withErr := m.HasErr && b.chance(0.5)
@@ -882,26 +927,35 @@ func (b *Builder) genHook(m *Method, kind string, srcT, dstT string) {
 			args += fmt.Sprintf(", a%d", i)
 		}
 	}
+	site := fname
+	if inM {
+		site = "m." + fname
+		params = renderIn("m", params)
+	}
 	var fn string
 	if withErr {
-		fn = fmt.Sprintf("func %s(%s) error {\n\tvtr.Enter(%q, %s)\n\tif vtr.Fail(%q) {\n\t\treturn vtr.ErrOf(%q)\n\t}\n\treturn nil\n}\n", fname, params, fname, args, fname, fname)
+		fn = fmt.Sprintf("func %s(%s) error {\n\tvtr.Enter(%q, %s)\n\tif vtr.Fail(%q) {\n\t\treturn vtr.ErrOf(%q)\n\t}\n\treturn nil\n}\n", fname, params, site, args, site, site)
 	} else {
-		fn = fmt.Sprintf("func %s(%s) {\n\tvtr.Enter(%q, %s)\n}\n", fname, params, fname, args)
+		fn = fmt.Sprintf("func %s(%s) {\n\tvtr.Enter(%q, %s)\n}\n", fname, params, site, args)
 	}
-	if b.chance(0.6) {
+	switch {
+	case inM:
+		b.funcsM = append(b.funcsM, fn)
+		b.usesM = true
+	case b.chance(0.6):
 		b.funcsS = append(b.funcsS, fn)
-	} else {
+	default:
 		b.funcsT = append(b.funcsT, fn)
 	}
-	m.Notations = append(m.Notations, Notation{Name: kind, Args: []string{fname}})
-	b.S.RegFuncs = append(b.S.RegFuncs, fname)
+	m.Notations = append(m.Notations, Notation{Name: kind, Args: []string{site}})
+	b.S.RegFuncs = append(b.S.RegFuncs, site)
 	if kind == "preprocess" {
-		m.PreSite = fname
+		m.PreSite = site
 	} else {
-		m.PostSite = fname
+		m.PostSite = site
 	}
 	if withErr {
-		m.ErrSites = append(m.ErrSites, fname)
+		m.ErrSites = append(m.ErrSites, site)
 	}
 	m.Probes = append(m.Probes, Probe{Dst: "", Mech: kind, Extra: fmt.Sprintf("dstptr=%v srcptr=%v err=%v extras=%v", dstPtr, srcPtr, withErr, withExtras)})
 }
@@ -991,6 +1045,13 @@ func (b *Builder) GenMethod(name string) *Method {
 	if b.chance(p.PDocLines) {
 		m.DocLines = append(m.DocLines, fmt.Sprintf("// %s converts things (doc %d).", name, b.next()))
 	}
+	if b.chance(0.12) && len(m.Notations) > 0 {
+		// an unknown (or misplaced) ":word" line among the notations: it is only logged, every other
+		// notation of the comment stays in force
+		raw := []string{":note keep in sync with the API", ":warning: generated", ":skipp X", ":todo", ":convergen", ":See also"}[b.R.Intn(6)]
+		at := b.R.Intn(len(m.Notations))
+		m.Notations = append(m.Notations[:at], append([]Notation{{Raw: raw}}, m.Notations[at:]...)...)
+	}
 	return m
 }
 
@@ -1042,6 +1103,9 @@ func (b *Builder) Finish() *Scenario {
 	}
 	for _, f := range b.funcsT {
 		ty.WriteString(f + "\n")
+	}
+	for _, f := range b.funcsM {
+		mp.WriteString(f + "\n")
 	}
 	tys := ty.String()
 	needExtT = reUsesExt.MatchString(tys)
@@ -1271,6 +1335,11 @@ func (b *Builder) genConvGenerated(ctx pairCtx, src, dst *SDecl, name string) {
 		dt = "*" + dt
 	}
 	inner.Src.Type, inner.Dst.Type = st, dt
+	if b.chance(0.4) {
+		// the generated converter itself has an error result: the outer method needs one, too
+		inner.HasErr = true
+		m.HasErr = true
+	}
 	inner.Probes = []Probe{{Dst: "A", Mech: "same", DstT: "int", SrcT: "int"}, {Dst: "B", Mech: "same", DstT: "string", SrcT: "string"}}
 	b.Pending = append(b.Pending, inner)
 	src.Fields = append(src.Fields, FDecl{Name: name, Type: st})
